@@ -10,12 +10,11 @@ RULE = ("chunks: every sequence up to the stated length over an 8-element alphab
 
 
 def classify(case, code):
-    # the narrow classes are decided inside Coq (Model.v case_code): 16 / 32 are set only when the failure is exactly
-    # of the recorded kind and no other bit (model difference, other predicate) is set
-    if code in (16, 48):
+    # the narrow class is decided inside Coq (Model.v case_code): 16 is set only when the failure is exactly of the
+    # recorded kind and no other bit (model difference, other predicate) is set.  C14-graph-budget-sum (formerly code 32)
+    # is FIXED by fix_graph_budget_joined: a budget failure of chunk_with_graph is bit 4 and therefore a VIOLATION.
+    if code == 16:
         return "C14-graph-unsectioned"
-    if code == 32:
-        return "C14-graph-budget-sum"
     return None
 
 
